@@ -138,8 +138,8 @@ def evaluate(c):
                 ev += 1
                 try:
                     build1(w)
-                except AssertionError:
-                    skips['taper-rejected-by-assert'] = skips.get('taper-rejected-by-assert', 0) + 1
+                except (AssertionError, ValueError):
+                    skips['taper-rejected(contradictory limits)'] = skips.get('taper-rejected(contradictory limits)', 0) + 1
                     continue
                 tag = 'taper%d L=%g r=%g n=%d min=%s max=%s' % (tt, L, r, n, tmin, tmax)
                 canon.append('tp|%d|%g|%g|%d|%s|%s' % (tt, L, r, n, mn, mx))
@@ -171,7 +171,7 @@ def evaluate(c):
                             l1 = np.array([s.seg_len for s in w1.segments])
                             if np.abs(l1[::-1] - lens).max() > 1e-11 * size:
                                 viol.append(('TAPER-MIRROR', '%s: end-2 taper is not the mirror of the end-1 taper (%.3g)' % (tag, np.abs(l1[::-1] - lens).max())))
-                    except AssertionError:
+                    except (AssertionError, ValueError):
                         viol.append(('TAPER-MIRROR', '%s: accepted for end 2 but rejected for end 1' % tag))
     elif k == 'arc':
         a1, a2 = c['ang']
